@@ -377,7 +377,7 @@ func (v *vdrRun) valueChecks(s *vdrSnapshot) {
 	n := 0
 	for i := range s.Forks {
 		f := &s.Forks[i]
-		if f.Kind != "stage" || n >= 24 {
+		if f.Kind != "stage" || n >= 10 {
 			continue
 		}
 		outs, ok := s.Outs[v.rel(f.Path)]
